@@ -1,20 +1,65 @@
-"""C12 - see mc/symfam.py (oracle_c12) and mc/props/_famb.py (exploration)."""
+"""C12 - see mc/symfam.py (oracle_c12), mc/props/_famb.py (root x presentation exploration) and
+mc/symhist.py (call-history exploration on one live analyser)."""
+from mc import symhist
+from mc.engine import Result, short_hash
 from mc.props import _famb
 
 PROPERTY = "C12"
+HIST_GETTERS = None
+HIST_LEN = {'quick': 2, 'thorough': 3}
 
 
 def shards(tier, seed):
-    return _famb.shards(PROPERTY, tier, seed)
+    return _famb.shards(PROPERTY, tier, seed) + [("hist", k) for k in range(len(symhist.system_sets(seed)))]
 
 
 def run_shard(shard, tier, seed):
-    return _famb.run_shard(PROPERTY, shard, tier, seed)
+    if shard[0] != "hist":
+        return _famb.run_shard(PROPERTY, shard, tier, seed)
+    res = Result()
+    systems = symhist.system_sets(seed)[shard[1]]
+    viol = symhist.explore(systems, 0.01, HIST_LEN[tier], res, getters=HIST_GETTERS)
+    res.counters["traces"] += 1
+    res.nontrivial.add("hist:%d" % shard[1])
+    res.sample({"kind": "history", "systems": [l for l, _ in systems], "length": HIST_LEN[tier]})
+    seen = set()
+    for seq, sysname, ev, d in viol:
+        if (sysname, ev) in seen:
+            continue
+        seen.add((sysname, ev))
+        case = {"kind": "hist", "set": shard[1], "seq": list(seq), "seed": seed}
+        res.violation("c12.history", {"set": shard[1], "seq": "|".join(seq)}, case, d)
+    return res
 
 
 def replay(case):
-    return _famb.replay(PROPERTY, case)
+    if case.get("kind") != "hist":
+        return _famb.replay(PROPERTY, case)
+    from matid.symmetry import SymmetryAnalyzer
+
+    systems = symhist.system_sets(case.get("seed", 0))[case["set"]]
+    an = SymmetryAnalyzer(systems[0][1].copy(), 0.01)
+    cur, cache, out = 0, {}, []
+    for i, ev in enumerate(case["seq"]):
+        if ev.startswith("set:"):
+            cur = int(ev[4:])
+            an.set_system(systems[cur][1].copy())
+            continue
+        want = symhist.fresh_values(systems[cur][1], 0.01, cache)[ev]
+        try:
+            got = symhist.digest(symhist.call(an, ev))
+        except Exception as e:
+            got = ("EXC", type(e).__name__)
+        if got != want:
+            out.append({"signature": {"check": "c12.history", "set": case["set"], "seq": "|".join(case["seq"])}, "case": case,
+                        "reason": "after %s, %s returns a different value than on a fresh analyser" % (case["seq"][:i], ev)})
+            break
+    return out
 
 
 def describe(tier, seed):
-    return _famb.describe(PROPERTY, tier, seed)
+    d = _famb.describe(PROPERTY, tier, seed)
+    d["rule"] += " Plus history exploration: every sequence of length %d over the events %s + set_system(k) on one live analyser for %d pairs of representative crystals; each returned value is compared with a fresh analyser's." % (
+        HIST_LEN[tier], HIST_GETTERS or "all 18 public getters", len(symhist.system_sets(seed)))
+    d["bounds"]["history_length"] = HIST_LEN[tier]
+    return d
